@@ -109,13 +109,28 @@ package inference
 //@    (and (= (det e.inferredMap t) (old (det e.inferredMap t))) (= (imVal e.inferredMap t) (old (imVal e.inferredMap t))) (= (detBool (imVal e.inferredMap t)) (old (detBool (imVal e.inferredMap t)))))))
 //@ define (sameEngine e) (and (= e.inferredMap (old e.inferredMap)) (= e.diagnosticEngine (old e.diagnosticEngine)) (= e.primitive (old e.primitive)))
 
+//@ -- Separation of the per-site implication lists: two lists of the map are the same object or share nothing
+//@ -- (index map, backing array, pair objects).  It holds of every map built by StoreImplication, copy and the gob
+//@ -- decoder; it is ASSUMED at the entry of StoreImplication (not yet carried by imOK through the whole engine),
+//@ -- and proved to be what the body needs and to be kept by its loop.
+//@ define (listSep a b) (or (= a b) (and (not (= a.inner b.inner)) (or (isnil a.Pairs) (isnil b.Pairs) (not (= (arrof a.Pairs) (arrof b.Pairs))))
+//@    (forall ((x Int) (y Int)) (=> (and (omInRange a x) (omInRange b y)) (not (= (omPair a x) (omPair b y)))))))
+//@ define (siteLists i s) (and (imHas i s) (isUndet (imVal i s)))
+//@ define (imSep i) (forall ((s primitiveSite) (t primitiveSite)) (=> (and (siteLists i s) (siteLists i t))
+//@    (and (listSep (implicatesOf i s) (implicatesOf i t)) (listSep (implicatesOf i s) (implicantsOf i t))
+//@         (listSep (implicantsOf i s) (implicatesOf i t)) (listSep (implicantsOf i s) (implicantsOf i t)))))
 //@ func (*InferredMap).StoreImplication
 //@ prop C05
-//@ nobody
+//@ assume lists-of-different-sites-share-nothing (imSep i)
+//@ loop 0 invariant lists-stay-separate (imSep i)
 //@ requires (and (imOK i) (<= (det i from) 1) (<= (det i to) 1))
 //@ modifies (obj i.mapping) (map i.mapping.inner) (elems i.mapping.Pairs) (obj (omPair i.mapping 0)) (obj (implOf i)) (map (. (implOf i) inner)) (elems (. (implOf i) Pairs)) (obj (omPair (implOf i) 0))
 //@ ensures ok-after (imOK i)
 //@ ensures edge-stored (and (= (det i from) 1) (= (det i to) 1) (mapin (. (undet (imVal i from)) Implicates inner) to) (mapin (. (undet (imVal i to)) Implicants inner) from))
+//@ ensures edge-carries-the-assertion (and (= (. (mapget (. (undet (imVal i from)) Implicates inner) to) Value) assertion) (= (. (mapget (. (undet (imVal i to)) Implicants inner) from) Value) assertion))
+//@ loop 0 invariant both-ends-present (and (imOK i) (= i.mapping (old i.mapping)) (<= -1 rangeindex) (< rangeindex 2)
+//@    (<= (det i from) 1) (<= (det i to) 1) (=> (>= rangeindex 0) (= (det i from) 1)) (=> (>= rangeindex 1) (= (det i to) 1))
+//@    (forall ((t primitiveSite)) (=> (old (>= (det i t) 2)) (and (= (det i t) (old (det i t))) (= (imVal i t) (old (imVal i t))) (= (detBool (imVal i t)) (old (detBool (imVal i t))))))))
 //@ ensures determined-kept (forall ((t primitiveSite)) (=> (old (>= (det i t) 2)) (and (= (det i t) (old (det i t))) (= (imVal i t) (old (imVal i t))) (= (detBool (imVal i t)) (old (detBool (imVal i t)))))))
 
 //@ func (*Engine).observeSiteExplanation
